@@ -276,6 +276,7 @@ def cmpHead (dev : Dev) (ev : Arg → M Val) (a : Arg) : M Val :=
   if dev.cmpUneval then
     match a with
     | .lit v => pure v
+    | .unk => stop .unmodelled      -- may be a string jp.Parse rejects: a string literal after all
     | _ => stop .panic
   else ev a
 
